@@ -435,6 +435,7 @@ package %s
 
 import (
 	"fmt"
+	"os"
 	"testing"
 
 	"github.com/jamf/regatta/internal/verif"
@@ -448,6 +449,9 @@ func TestVWitness(t *testing.T) {
 	}{
 %s	}
 	for _, j := range jobs {
+		if os.Getenv("VWITNESS_JOB") != fmt.Sprint(j.i) {
+			continue
+		}
 		fmt.Println("VWITNESS-BEGIN", j.i)
 		if _, err := verif.Load(j.file); err != nil {
 			fmt.Println("VREPLAY-END load-error", err)
@@ -463,28 +467,48 @@ func TestVWitness(t *testing.T) {
 	ovb, _ := json.Marshal(map[string]interface{}{"Replace": ov})
 	ovFile := filepath.Join(tmp, "overlay.json")
 	os.WriteFile(ovFile, ovb, 0o644)
-	cmd := exec.Command("timeout", "1200", "go", "test", "-vet=off", "-count=1", "-tags", "verif", "-overlay", ovFile, "-run", "^TestVWitness$", "-v", "./"+pkg)
-	cmd.Dir = repoDir
-	cmd.Env = append(os.Environ(), "GOFLAGS=-mod=mod", "GOPROXY=off", "GOSUMDB=off", "GOTOOLCHAIN=local")
-	out, _ := cmd.CombinedOutput()
-	cur := -1
-	for _, l := range strings.Split(string(out), "\n") {
-		l = strings.TrimSpace(l)
-		switch {
-		case strings.HasPrefix(l, "VWITNESS-BEGIN "):
-			fmt.Sscanf(l, "VWITNESS-BEGIN %d", &cur)
-		case strings.HasPrefix(l, "VREPLAY-COVERS") && cur >= 0 && cur < len(jobs):
-			jobs[cur].covers = strings.TrimSpace(strings.TrimPrefix(l, "VREPLAY-COVERS"))
-		case strings.HasPrefix(l, "VREPLAY-END ") && cur >= 0 && cur < len(jobs):
-			jobs[cur].outcome = strings.TrimSpace(strings.TrimPrefix(l, "VREPLAY-END "))
+	// one test binary per package, one process per witness (a harness may leave
+	// background work behind, e.g. a database on a "crashed" file system)
+	bin := filepath.Join(tmp, "witness.test")
+	build := exec.Command("timeout", "1200", "go", "test", "-c", "-o", bin, "-vet=off", "-tags", "verif", "-overlay", ovFile, "./"+pkg)
+	build.Dir = repoDir
+	build.Env = append(os.Environ(), "GOFLAGS=-mod=mod", "GOPROXY=off", "GOSUMDB=off", "GOTOOLCHAIN=local")
+	if out, err := build.CombinedOutput(); err != nil {
+		for _, j := range jobs {
+			j.outcome = "native build failed"
 		}
-	}
-	for _, j := range jobs {
-		if j.outcome == "not-run" {
-			os.WriteFile(strings.TrimSuffix(j.file, ".json")+".replay.log", filterNoise(out), 0o644)
-			break
+		if len(jobs) > 0 {
+			os.WriteFile(strings.TrimSuffix(jobs[0].file, ".json")+".replay.log", out, 0o644)
 		}
+		return
 	}
+	var wg sync.WaitGroup
+	sem := make(chan struct{}, 4)
+	for i, j := range jobs {
+		wg.Add(1)
+		go func(i int, j *witnessJob) {
+			defer wg.Done()
+			sem <- struct{}{}
+			defer func() { <-sem }()
+			cmd := exec.Command("timeout", "600", bin, "-test.run", "^TestVWitness$", "-test.v", "-test.count=1")
+			cmd.Dir = filepath.Join(repoDir, pkg)
+			cmd.Env = append(os.Environ(), fmt.Sprintf("VWITNESS_JOB=%d", i))
+			out, _ := cmd.CombinedOutput()
+			for _, l := range strings.Split(string(out), "\n") {
+				l = strings.TrimSpace(l)
+				switch {
+				case strings.HasPrefix(l, "VREPLAY-COVERS"):
+					j.covers = strings.TrimSpace(strings.TrimPrefix(l, "VREPLAY-COVERS"))
+				case strings.HasPrefix(l, "VREPLAY-END "):
+					j.outcome = strings.TrimSpace(strings.TrimPrefix(l, "VREPLAY-END "))
+				}
+			}
+			if j.outcome != "ok" {
+				os.WriteFile(strings.TrimSuffix(j.file, ".json")+".replay.log", filterNoise(out), 0o644)
+			}
+		}(i, j)
+	}
+	wg.Wait()
 }
 
 func writeWitnessFile(vd, id string, in *Instance, w *WitnessPath, i int) string {
